@@ -2,8 +2,6 @@
 from fractions import Fraction
 from .common import *
 
-THEOREMS = ["c05_plus", "c05_minus", "c05_of", "c05_on", "c05_off", "c05_what_percent", "c05_of_what",
-            "c05_money_keeps_currency", "c05_rule_selected", "c05_spellings", "c05_nonvacuous"]
 ALLOWED_AXIOMS = []
 DETAIL = 0
 RULE = ("X, A, B, p from {0, +-small integers, fractions, large, tiny} x {plain, money in 8 currencies} x both percent "
